@@ -175,14 +175,21 @@ def run_trace(module, trace_path, timeout=1200, heap="3g", cfg=None):
     shutil.rmtree(md, ignore_errors=True)
     wall = time.time() - t0
     n_lines = sum(1 for _ in open(trace_path))
+    viols, drifts, seen = [], [], set()
+    for kind, h, k, line, prop, conj, ev in RE_VIOL.findall(out):
+        if (kind, h, k, line, prop, conj, ev) in seen:
+            continue
+        seen.add((kind, h, k, line, prop, conj, ev))
+        rec = dict(h=int(h), k=int(k), line=int(line), prop=prop, conj=conj, ev=ev)
+        (viols if kind == "VIOL" else drifts).append(rec)
     if "Model checking completed. No error has been found." not in out:
         stuck = re.search(r'<<"STUCK".*?>>', out)
         log(out[-3000:])
-        raise ToolError(f"trace validator did not accept the whole trace {trace_path}: {stuck.group(0) if stuck else 'error'}")
-    viols, drifts = [], []
-    for kind, h, k, line, prop, conj, ev in RE_VIOL.findall(out):
-        rec = dict(h=int(h), k=int(k), line=int(line), prop=prop, conj=conj, ev=ev)
-        (viols if kind == "VIOL" else drifts).append(rec)
+        if not viols:
+            raise ToolError(f"trace validator did not accept the whole trace {trace_path}: {stuck.group(0) if stuck else 'error'}")
+        # the validator stopped before the end of the trace (an event outside what the trace specification can evaluate,
+        # typically after the code under test has already misbehaved): the violations reported up to there stand
+        log(f"[trace] validator stopped early on {trace_path} after reporting {len(viols)} violations: they are kept")
     return viols, drifts, n_lines, wall
 
 
